@@ -21,9 +21,9 @@ type OrderKey struct {
 
 // TimeSpec is an ASOF/UNTIL bound: absolute (unix nanos) or relative to now.
 type TimeSpec struct {
-	Abs int64 `json:"abs,omitempty"`
-	Rel int64 `json:"rel,omitempty"` // negative nanoseconds
-	IsRel bool `json:"is_rel,omitempty"`
+	Abs   int64 `json:"abs,omitempty"`
+	Rel   int64 `json:"rel,omitempty"` // negative nanoseconds
+	IsRel bool  `json:"is_rel,omitempty"`
 }
 
 func (ts *TimeSpec) SQL() string {
